@@ -4,7 +4,7 @@ import S3V.Thm.FsWriteConc
 # C19 — object writes to the file-system backend are all-or-nothing (property theorems only)
 
 Model: `S3V/Model/FsWrite.lean` (steps of `prepare_file_write` / `copy_bytes` / checksum comparison / `done()` /
-side-file writes / `Drop for FileWriter`, current tree = after 3229285). A *fault after step `k`* is
+side-file writes / `Drop for FileWriter`, current tree = after 3229285, 0096ef4, 47e9b00, 2ee4116). A *fault after step `k`* is
 `dropAfter k`: the request future is dropped there (client disconnect), which also covers an error return at that
 point because both run the same `Drop`. `run` is the call running to its answer (with the injected body errors,
 checksum mismatch, failing rename, failing side-file writes).
@@ -12,10 +12,13 @@ checksum mismatch, failing rename, failing side-file writes).
 Quantifiers: every list of body frames (any number, any bytes, errors anywhere), every previous content or none,
 every fault position `k` (no bound), every number of concurrent writers and every schedule.
 
+Repaired (2ee4116): one fault position used to leave the temporary file — the future dropped after
+`File::create(tmp)` was issued on the blocking pool and before the `FileWriter` existed (`tmp-leftover:drop-at-create`,
+F-fswrite-2). The file is now created in the same poll in which the `FileWriter` is constructed (one step `create`), so
+the theorems below hold at EVERY fault position; the exclusion `DropAtCreate` and the suffix `_partial` are gone.
+
 What is **not** atomic (stated precisely, see `S3V/Findings/C19.lean` for kernel-checked witnesses, all replayed on
 the real code by the correspondence run):
-* one fault position leaves the temporary file: the future dropped after `File::create(tmp)` was issued and before
-  the `FileWriter` exists (`k = 1`; `k = n + 2` for `complete_multipart_upload` of `n` parts) — hence `_partial` below;
 * the metadata and checksum side files are written after the rename, each by its own `fs::write`: a fault between
   leaves new content with old side files, and a failing side-file write answers an error although the content
   was replaced. `C19_sidefiles_never_ahead` is the half that does hold;
@@ -30,37 +33,28 @@ open S3V S3V.FsWrite
 
 /-- the conclusion of all-or-nothing for `put_object` at fault position `k` (= the request future is dropped, or
     the call returns an error, after `k` steps of the program
-    `create, adopt, frame₁ … frameₙ, flush, check, mkdirs, rename, saveMeta | dropMeta, saveInfo`).
-    The positions inside `FileWriter::done()` are explicit: `k = n + 4` — `done()` entered, nothing awaited yet;
-    `k = n + 5` — `create_dir_all(parent)` finished, rename not yet issued; `k = n + 6` — rename done. -/
+    `create, frame₁ … frameₙ, flush, check, mkdirs, rename, saveMeta | dropMeta, saveInfo`).
+    The positions inside `FileWriter::done()` are explicit: `k = n + 3` — `done()` entered, nothing awaited yet;
+    `k = n + 4` — `create_dir_all(parent)` finished, rename not yet issued; `k = n + 5` — rename done. -/
 def AllOrNothingAt (c : Cfg) (old : Option Bytes) (m i : Side) (k : Nat) : Prop :=
   let s := dropAfter k (putObjectProg c) (initSt old m i)
   s.tmp = false ∧
   (s.dest = old ∨ ∃ all, allBytes c.frames = some all ∧ s.dest = some all) ∧
-  (k ≤ c.frames.length + 5 → s.dest = old)
+  (k ≤ c.frames.length + 4 → s.dest = old)
 
-/-- the full statement: at *every* fault position. It is false of the model (and of the code): see
-    `S3V.Findings.C19.write_all_or_nothing_full_is_false`. -/
-def C19_write_all_or_nothing_full : Prop :=
-  ∀ (c : Cfg) (old : Option Bytes) (m i : Side) (k : Nat), AllOrNothingAt c old m i k
-
-/-- the excluded fault position: after `File::create(tmp)`, before the `FileWriter` is constructed -/
-def DropAtCreate (k : Nat) : Prop := k = 1
-instance (k : Nat) : Decidable (DropAtCreate k) := inferInstanceAs (Decidable (k = 1))
-
-/-- **All-or-nothing for `put_object`.** For every body, every previous state and every fault position other than
-    `DropAtCreate` — in particular at every position inside `done()`, and whether `create_dir_all` / `rename`
+/-- **All-or-nothing for `put_object`** — the full statement. For every body, every previous state and EVERY fault position
+    `k` (before 2ee4116 the position after `File::create(tmp)` had to be excluded: `C19_write_all_or_nothing_partial`,
+    `DropAtCreate`) — in particular at every position inside `done()`, and whether `create_dir_all` / `rename`
     succeed or fail (`c.mkdirsFails`, `c.renameFails` are arbitrary) —: no temporary file remains; the destination holds the previous content or — only if no body
     item was an error — all body bytes in order; and at every position up to and including the last step before
-    the rename (`k ≤ n + 5`) it still holds the previous content. -/
-theorem C19_write_all_or_nothing_partial (c : Cfg) (old : Option Bytes) (m i : Side) (k : Nat)
-    (hk : ¬ DropAtCreate k) : AllOrNothingAt c old m i k := by
+    the rename (`k ≤ n + 4`) it still holds the previous content. -/
+theorem C19_write_all_or_nothing (c : Cfg) (old : Option Bytes) (m i : Side) (k : Nat) : AllOrNothingAt c old m i k := by
   unfold AllOrNothingAt
   simp only [dropAfter_eq, putObjectProg_eq]
-  rcases create_adopt_then (rest := c.frames.map .frame ++
+  rcases create_then (rest := c.frames.map .frame ++
       ([.flush, .check c.checksumsEqual, .mkdirs c.mkdirsFails, .rename c.renameFails] ++
         (if c.hasMeta then [.saveMeta c.metaFails] else [.dropMeta c.metaFails]) ++ [.saveInfo c.infoFails]))
-      (s := initSt old m i) ⟨rfl, rfl⟩ k hk with ⟨_, h⟩ | ⟨k', rfl, h⟩
+      (s := initSt old m i) ⟨rfl, rfl⟩ k with ⟨_, h⟩ | ⟨k', rfl, h⟩
   · rw [h]; simp [initSt]
   · rw [h]
     obtain ⟨h1, h2, h3, _⟩ := frames_then_tail (putTail_ok c) c.frames
@@ -70,17 +64,17 @@ theorem C19_write_all_or_nothing_partial (c : Cfg) (old : Option Bytes) (m i : S
     · exact .inl h2
     · exact .inr ⟨all, ha, by simpa [initSt] using h2⟩
 
-/-- **Side files never run ahead of the content (`put_object`).** At every fault position other than
-    `DropAtCreate`: if the metadata or the checksum record differs from before, the content has been replaced
+/-- **Side files never run ahead of the content (`put_object`).** At every fault position: if the metadata or the
+    checksum record differs from before, the content has been replaced
     by the complete new bytes. (The converse fails: `S3V.Findings.C19.sidefiles_lag_after_rename`.) -/
-theorem C19_sidefiles_never_ahead (c : Cfg) (old : Option Bytes) (m i : Side) (k : Nat) (hk : ¬ DropAtCreate k) :
+theorem C19_sidefiles_never_ahead (c : Cfg) (old : Option Bytes) (m i : Side) (k : Nat) :
     let s := dropAfter k (putObjectProg c) (initSt old m i)
     (s.mdata ≠ m ∨ s.info ≠ i) → ∃ all, allBytes c.frames = some all ∧ s.dest = some all := by
   simp only [dropAfter_eq, putObjectProg_eq]
-  rcases create_adopt_then (rest := c.frames.map .frame ++
+  rcases create_then (rest := c.frames.map .frame ++
       ([.flush, .check c.checksumsEqual, .mkdirs c.mkdirsFails, .rename c.renameFails] ++
         (if c.hasMeta then [.saveMeta c.metaFails] else [.dropMeta c.metaFails]) ++ [.saveInfo c.infoFails]))
-      (s := initSt old m i) ⟨rfl, rfl⟩ k hk with ⟨_, h⟩ | ⟨k', rfl, h⟩
+      (s := initSt old m i) ⟨rfl, rfl⟩ k with ⟨_, h⟩ | ⟨k', rfl, h⟩
   · rw [h]; simp [initSt]
   · rw [h]
     obtain ⟨_, _, _, h4⟩ := frames_then_tail (putTail_ok c) c.frames
@@ -142,16 +136,16 @@ theorem C19_successful_write_complete (c : Cfg) (old : Option Bytes) (m i : Side
   rw [hr, hb, h1, h2, h3, h4, h5]
   cases c.hasMeta <;> simp [run, exec, cleanup, initSt]
 
-/-- **All-or-nothing for `upload_part`** (destination = the part file), every fault position but `DropAtCreate`. -/
-theorem C19_upload_part_all_or_nothing (c : Cfg) (old : Option Bytes) (m i : Side) (k : Nat) (hk : ¬ DropAtCreate k) :
+/-- **All-or-nothing for `upload_part`** (destination = the part file), at every fault position. -/
+theorem C19_upload_part_all_or_nothing (c : Cfg) (old : Option Bytes) (m i : Side) (k : Nat) :
     let s := dropAfter k (uploadPartProg c) (initSt old m i)
     s.tmp = false ∧ (s.dest = old ∨ ∃ all, allBytes c.frames = some all ∧ s.dest = some all) ∧
-      (k ≤ c.frames.length + 4 → s.dest = old) := by
-  have e : uploadPartProg c = .create :: .adopt :: (c.frames.map .frame ++ [.flush, .mkdirs c.mkdirsFails, .rename c.renameFails]) := by
+      (k ≤ c.frames.length + 3 → s.dest = old) := by
+  have e : uploadPartProg c = .create :: (c.frames.map .frame ++ [.flush, .mkdirs c.mkdirsFails, .rename c.renameFails]) := by
     simp [uploadPartProg]
   simp only [dropAfter_eq, e]
-  rcases create_adopt_then (rest := c.frames.map .frame ++ [.flush, .mkdirs c.mkdirsFails, .rename c.renameFails])
-      (s := initSt old m i) ⟨rfl, rfl⟩ k hk with ⟨_, h⟩ | ⟨k', rfl, h⟩
+  rcases create_then (rest := c.frames.map .frame ++ [.flush, .mkdirs c.mkdirsFails, .rename c.renameFails])
+      (s := initSt old m i) ⟨rfl, rfl⟩ k with ⟨_, h⟩ | ⟨k', rfl, h⟩
   · rw [h]; simp [initSt]
   · rw [h]
     obtain ⟨h1, h2, h3, _⟩ := frames_then_tail (uploadPartTail_ok c) c.frames
@@ -162,21 +156,22 @@ theorem C19_upload_part_all_or_nothing (c : Cfg) (old : Option Bytes) (m i : Sid
     · exact .inr ⟨all, ha, by simpa [initSt] using h2⟩
 
 /-- **All-or-nothing for `complete_multipart_upload`** — content, metadata, upload record and part files —, at every
-    fault position but the one after `File::create` (here `k = n + 2` for `n` listed parts: `n` probes, the size rule,
-    `create`): no temporary file; the destination holds the previous content or — only if every part exists and passes
-    the size rule — the parts concatenated in order; up to the last step before the rename (`k ≤ 2n + 4`) it holds the
+    fault position (the program for `n` listed parts: `n` probes, the size rule, `create`, `n` parts, `mkdirs`, `rename`, then
+    the side files, the part files, the upload record): no temporary file; the destination holds the previous content or —
+    only if every part exists and passes
+    the size rule — the parts concatenated in order; up to the last step before the rename (`k ≤ 2n + 3`) it holds the
     previous content; and as long as the destination has not been replaced by the complete new content nothing else
     has changed either: the metadata and the checksum record are the previous object's, the upload record exists and no
     part file has been removed (before 0096ef4 the upload record was removed and the metadata replaced first:
     `S3V.Findings.C19.complete_metadata_early_*`, now regression facts). -/
-theorem C19_complete_all_or_nothing (c : Cfg) (old : Option Bytes) (m i : Side) (k : Nat) (hk : k ≠ c.parts.length + 2) :
+theorem C19_complete_all_or_nothing (c : Cfg) (old : Option Bytes) (m i : Side) (k : Nat) :
     let s := dropAfter k (completeProg c) (initSt old m i)
     s.tmp = false ∧ (s.dest = old ∨ ∃ all, allParts c.parts = some all ∧ s.dest = some all) ∧
-      (k ≤ 2 * c.parts.length + 4 → s.dest = old) ∧
+      (k ≤ 2 * c.parts.length + 3 → s.dest = old) ∧
       ((s.mdata ≠ m ∨ s.info ≠ i ∨ s.uploadRec = false ∨ s.partsGone ≠ 0) →
         ∃ all, allParts c.parts = some all ∧ s.dest = some all) := by
   simp only [dropAfter_eq, completeProg_eq]
-  rcases probes_then (.create :: .adopt ::
+  rcases probes_then (.create ::
       (c.parts.map .part ++ .mkdirs c.mkdirsFails :: .rename c.renameFails :: completePost c))
       (c.parts.all Part.fine) c.parts (initSt old m i) k with h | ⟨hv, k', rfl, h⟩
   · -- still validating, or the validation failed: nothing has happened
@@ -184,8 +179,8 @@ theorem C19_complete_all_or_nothing (c : Cfg) (old : Option Bytes) (m i : Side) 
   · rw [h]
     have hsome : (allParts c.parts).isSome = true := by rw [allParts_valid]; exact hv
     obtain ⟨all, hall⟩ := Option.isSome_iff_exists.mp hsome
-    rcases create_adopt_then (rest := c.parts.map .part ++ .mkdirs c.mkdirsFails :: .rename c.renameFails :: completePost c)
-        (s := initSt old m i) ⟨rfl, rfl⟩ k' (by omega) with ⟨_, h⟩ | ⟨k'', rfl, h⟩
+    rcases create_then (rest := c.parts.map .part ++ .mkdirs c.mkdirsFails :: .rename c.renameFails :: completePost c)
+        (s := initSt old m i) ⟨rfl, rfl⟩ k' with ⟨_, h⟩ | ⟨k'', rfl, h⟩
     · rw [h]; simp [initSt]
     · rw [h]
       obtain ⟨h1, h2, h3, h4⟩ := parts_then_tail (completeTail_ok c) c.parts all hall
@@ -216,7 +211,7 @@ theorem C19_failed_complete_changes_nothing (c : Cfg) (old : Option Bytes) (m i 
     (run (completeProg c) (initSt old m i)).2.uploadRec = true ∧
     (run (completeProg c) (initSt old m i)).2.partsGone = 0 := by
   rw [completeProg_eq]
-  obtain ⟨code, hcode, hr⟩ := run_probes (.create :: .adopt ::
+  obtain ⟨code, hcode, hr⟩ := run_probes (.create ::
       (c.parts.map .part ++ .mkdirs c.mkdirsFails :: .rename c.renameFails :: completePost c))
       (c.parts.all Part.fine) c.parts (initSt old m i)
   rw [hr]
@@ -256,7 +251,7 @@ theorem C19_successful_complete (c : Cfg) (old : Option Bytes) (m i : Side) (all
     (run (completeProg c) (initSt old m i)).2.uploadRec = false ∧
     (run (completeProg c) (initSt old m i)).2.partsGone = c.parts.length := by
   rw [completeProg_eq]
-  obtain ⟨code, _, hr⟩ := run_probes (.create :: .adopt ::
+  obtain ⟨code, _, hr⟩ := run_probes (.create ::
       (c.parts.map .part ++ .mkdirs c.mkdirsFails :: .rename c.renameFails :: completePost c))
       (c.parts.all Part.fine) c.parts (initSt old m i)
   have hv : (c.parts.all Part.there && c.parts.all Part.fine) = true := by
@@ -284,7 +279,7 @@ theorem C19_done_failure_guarded (c : Cfg) (old : Option Bytes) (m i : Side)
   rcases hp with rfl | rfl | rfl
   · have := C19_failed_upload_changes_nothing c old m i (.inr (.inr h))
     exact ⟨this.1, this.2.1, this.2.2.1⟩
-  · have e : uploadPartProg c = .create :: .adopt ::
+  · have e : uploadPartProg c = .create ::
         (c.frames.map .frame ++ [.flush, .mkdirs c.mkdirsFails, .rename c.renameFails]) := by
       simp [uploadPartProg]
     rw [e]
@@ -350,16 +345,18 @@ theorem C19_concurrent_one_writer (old : Option Bytes) (contents : List (List By
 
 /-! ## non-vacuity -/
 
-/-- frames `ab`, `c` over previous content `z`: dropped at position 4 (one frame written) → previous content, no
+/-- frames `ab`, `c` over previous content `z`: dropped at position 2 (one frame written) → previous content, no
     temporary file; run to the end → `abc` -/
-example : (dropAfter 4 (putObjectProg { frames := [.ok [97, 98], .ok [99]] }) (initSt (some [122]) .old .old)).dest
+example : (dropAfter 2 (putObjectProg { frames := [.ok [97, 98], .ok [99]] }) (initSt (some [122]) .old .old)).dest
     = some [122] := by decide
 example : (run (putObjectProg { frames := [.ok [97, 98], .ok [99]], hasMeta := true }) (initSt (some [122]) .old .old))
     = (.ok, { dest := some [97, 98, 99], tmp := false, owned := false, acc := [97, 98, 99], mdata := .new, info := .new,
               uploadRec := true, partsGone := 0, pulled := 2, dirs := true }) := by decide
-example : ¬ DropAtCreate 4 := by decide
-/-- dropped between `create_dir_all` and the rename (position n + 5 = 7): previous content, no temporary file -/
-example : (dropAfter 7 (putObjectProg { frames := [.ok [97, 98], .ok [99]] }) (initSt (some [122]) .old .old)).tmp
+/-- dropped right after `create` (position 1, formerly the excluded `DropAtCreate`): no temporary file, nothing changed -/
+example : dropAfter 1 (putObjectProg { frames := [.ok [97, 98], .ok [99]] }) (initSt (some [122]) .old .old)
+    = initSt (some [122]) .old .old := by decide
+/-- dropped between `create_dir_all` and the rename (position n + 4 = 6): previous content, no temporary file -/
+example : (dropAfter 6 (putObjectProg { frames := [.ok [97, 98], .ok [99]] }) (initSt (some [122]) .old .old)).tmp
     = false := by decide
 /-- `create_dir_all` fails: error, previous content, no temporary file -/
 example : (run (putObjectProg { frames := [.ok [97]], mkdirsFails := true }) (initSt none .absent .absent)).2.tmp
